@@ -1,0 +1,19 @@
+//go:build verif
+
+package render
+
+import (
+	"github.com/deadsy/sdfx/sdf"
+	v3 "github.com/deadsy/sdfx/vec/v3"
+	"github.com/deadsy/sdfx/vec/v3i"
+)
+
+// VerifLayerEvaluate evaluates layer x of the grid (base, inc, steps) exactly as
+// marchingCubes does (the shared evaluation routines, layerYZ.Evaluate) and returns the
+// layer array, so that the slot every point's value lands in can be observed.
+func VerifLayerEvaluate(s sdf.SDF3, base, inc v3.Vec, steps v3i.Vec, x int) []float64 {
+	evalOnce.Do(evalRoutines)
+	l := newLayerYZ(base, inc, steps)
+	l.Evaluate(s, x)
+	return l.val1
+}
